@@ -17,6 +17,7 @@
 #include <fcppt/parse/repetition_plus_decl.hpp>
 #include <fcppt/parse/repetition_plus_impl.hpp>
 #include <fcppt/parse/separator.hpp>
+#include <fcppt/parse/list.hpp>
 #include <fcppt/parse/convert.hpp>
 #include <fcppt/parse/convert_if.hpp>
 #include <fcppt/parse/ignore.hpp>
@@ -134,5 +135,6 @@ int vf_skip_sequence(void){ return run_skip(p::skipper::sequence<abs_skip<1>, ab
 int vf_skip_repetition(void){ return run_skip(p::skipper::repetition<abs_skip<1>>{abs_skip<1>{}}); }
 int vf_skip_epsilon(void){ return run_skip(p::skipper::epsilon{}); }
 int vf_skip_literal(char c){ return run_skip(p::skipper::basic_literal<char>{c}); }
+int vf_list(int *n, int *out){ using U2 = abs_parser_unit<2>; auto const r = run(p::list<U2, P1, U2, U2>{U2{}, P1{}, U2{}, U2{}}); if (r.has_success()) { auto const &v = r.get_success_unsafe(); *n = static_cast<int>(v.size()); for (unsigned i = 0; i < 3 && i < v.size(); ++i) out[i] = v[i]; } return outcome(r); }
 int vf_separator(int *n, int *out){ auto const r = run(p::separator<P1, abs_parser_unit<2>>{P1{}, abs_parser_unit<2>{}}); if (r.has_success()) { auto const &v = r.get_success_unsafe(); *n = static_cast<int>(v.size()); for (unsigned i = 0; i < 3 && i < v.size(); ++i) out[i] = v[i]; } return outcome(r); }
 }
